@@ -426,6 +426,10 @@ impl<'a> DpRun<'a> {
                     self.viol(rep, "C05", format!("C05/panic/{}", p.class()), format!("poll() panicked at {}us: {}", self.world.now, p.message));
                     if p.message.starts_with(profirust::verif::FUEL_PANIC) {
                         self.viol(rep, "C14", "C14/turn-never-ends".into(), format!("loop fuel exhausted: {}", p.message));
+                    } else if self.judge == "C17" {
+                        // the C17 rig only feeds diagnostics replies: a panic inside poll() is the
+                        // ext-diag iterator / Debug formatting failing on that reply
+                        self.viol(rep, "C17", format!("C17/panic/{}", p.class()), format!("poll() panicked while processing a diagnostics reply: {}", p.message));
                     } else if self.judge == "C04" {
                         self.viol(rep, "C04", format!("C04/master-crashed/{}", p.class()), format!("the master panicked: {}", p.message));
                     }
